@@ -389,6 +389,10 @@ def run(ctx):
     from . import c07
     from .c06 import _Prefixed
     c07.run(_Prefixed(ctx, "snapshot-"))
+    # "an off-grid price raises ValueError ... leaving the object unchanged": the error the wrappers map to ValueError is raised by
+    # the core's creation iff a limit price is off the grid (never for a market order), with no effect (C12's creation rules)
+    from . import c12
+    c12.creation_rules(_Prefixed(ctx, "valueerror-"), m)
     # "a StepEnv is deterministic in its seed": nothing reachable from the StepEnv methods (through the core's step, shuffle and
     # event processing) draws on a source of nondeterminism (C09's deny list, rooted at the Python class)
     from . import c09
